@@ -4,6 +4,7 @@ package c09
 
 import (
 	"fmt"
+	"math"
 	"testing"
 
 	"github.com/openacid/low/bitstr"
@@ -23,7 +24,8 @@ type Range struct {
 }
 
 type Case struct {
-	Op    string `json:"op"` // cmp | cmpupto
+	Op    string `json:"op"`            // cmp | cmpupto | maxnew
+	Cut   int    `json:"cut,omitempty"` // maxnew: X.S is empty, the source is the maximum string (2^28 bytes, gen.MaxString) without its last Cut bytes
 	X     Range  `json:"x"`
 	Y     *Range `json:"y,omitempty"`
 	A     vk.Hex `json:"a,omitempty"` // plain bytes for CmpUpto/StrCmpUpto (compared against X)
@@ -249,7 +251,55 @@ func checkCmp(x, y Range) *vk.Failure {
 	return nil
 }
 
+// checkMaxNew: New / Len on a source of 2^28 bytes (8*len = 2^31 fits no int32) or a few bytes less. The
+// encoding is compared, through Cmp / Len / CmpUpto, with the encoding of a small private copy of the
+// bytes the range touches (built from the description of the string), so no layout is assumed.
+func checkMaxNew(from, to int32, cut int) *vk.Failure {
+	if cut < 0 || cut > 64 || from < 0 || from > to || int64(to) > int64(8*(gen.MaxStrLen-cut)) || int64(to)-int64(from) > 4096 {
+		return nil
+	}
+	s := gen.MaxString(cut)
+	lo, hi := int64(from)/8, (int64(to)+7)/8
+	small := gen.MaxStrCopy(lo, hi)
+	sf, st := from-int32(8*lo), int32(int64(to)-8*lo)
+	what := fmt.Sprintf("New(source of 2^28-%d bytes, %d, %d)", cut, from, to)
+	var e, e2 []byte
+	var l, l2 int32
+	var c1, c2, u1, u2 int
+	if f := vk.Try(what, func() {
+		e = bitstr.New(s, from, to)
+		l = bitstr.Len(e)
+	}); f != nil {
+		return f
+	}
+	if f := vk.Try("the same range on a private copy of the bytes it touches", func() {
+		e2 = bitstr.New(string(small), sf, st)
+		l2 = bitstr.Len(e2)
+		c1, c2 = bitstr.Cmp(e, e2), bitstr.Cmp(e2, e)
+		u1, u2 = bitstr.CmpUpto(small, e), bitstr.StrCmpUpto(string(small)+"\xff", e)
+	}); f != nil {
+		return f
+	}
+	want := int32(int64(to) - 8*lo)
+	if l != want || l2 != want {
+		return vk.Failf("len", "Len(%s) = %d (on the small copy %d), want %d", what, l, l2, want)
+	}
+	if c1 != 0 || c2 != 0 {
+		return vk.Failf("cmp", "%s = %x and New(copy of bytes [%d,%d), %d, %d) = %x compare as %d/%d, want 0: the same bit string", what, e, lo, hi, sf, st, e2, c1, c2)
+	}
+	if u1 != 0 || u2 != 0 {
+		return vk.Failf("cmpupto", "CmpUpto/StrCmpUpto(the bytes of the range (+ff), %s = %x) = %d/%d, want 0", what, e, u1, u2)
+	}
+	if j, bad := gen.MaxStringDamage(); bad {
+		return vk.Failf("cmpupto-mutates", "byte %d of the 2^28-byte source was modified", j)
+	}
+	return nil
+}
+
 func check(c Case) *vk.Failure {
+	if c.Op == "maxnew" {
+		return checkMaxNew(c.X.From, c.X.To, c.Cut)
+	}
 	if c.Op == "cmp" {
 		return checkCmp(c.X, *c.Y)
 	}
@@ -265,6 +315,9 @@ func common(a, b []bool) int {
 }
 
 func classify(c Case) (bool, []string) {
+	if c.Op == "maxnew" {
+		return c.X.To > c.X.From, []string{"op:maxnew", "maximum-string(2^28 bytes)"}
+	}
 	labels := []string{"op:" + c.Op}
 	if c.Class != "" {
 		labels = append(labels, "class:"+c.Class)
@@ -502,5 +555,21 @@ func TestGrid(t *testing.T) {
 	vk.CountConstructed(evals, nontriv, "grid")
 	vk.AddSample(map[string]any{"grid": fmt.Sprintf("%d encodings: all pairs for Cmp, x %d plain strings for CmpUpto/StrCmpUpto", len(rs), len(plain)),
 		"example": map[string]any{"x": "New(80ff, 3, 11)", "encoding": fmt.Sprintf("%x", bitstr.New("\x80\xff", 3, 11))}})
+	// the maximum string as source: 2^28 bytes (8*len = 2^31 fits no int32), and a few bytes less
+	for _, cut := range []int{0, 1, 3} {
+		L8 := int64(8 * (gen.MaxStrLen - cut))
+		for _, d := range []int64{0, 1, 7, 8, 9, 15, 16, 17, 40, 64, 100} {
+			for _, w := range []int64{0, 1, 3, 7, 8, 9, 16, 21, 64} {
+				from, to := L8-d-w, L8-d
+				if to > math.MaxInt32 || from < 0 {
+					continue
+				}
+				checker.Run(t, Case{Op: "maxnew", X: Range{From: int32(from), To: int32(to)}, Cut: cut, Class: "grid-maximum-string"})
+			}
+		}
+		for _, r := range [][2]int64{{0, 0}, {0, 13}, {3, 80}, {8 * (gen.MaxStrLen / 2), 8*(gen.MaxStrLen/2) + 16}, {8*(gen.MaxStrLen/2) - 5, 8*(gen.MaxStrLen/2) + 11}} {
+			checker.Run(t, Case{Op: "maxnew", X: Range{From: int32(r[0]), To: int32(r[1])}, Cut: cut, Class: "grid-maximum-string"})
+		}
+	}
 	vk.MarkExhaustive("all strings of length <= 2 over {00,01,7f,80,ff} x from in {0,3,8,11} x all to: all pairs (Cmp), all plain strings of length <= 3 (CmpUpto/StrCmpUpto)")
 }
